@@ -145,6 +145,10 @@ func builtinGlobalParseFloat(call FunctionCall) Value {
 		return NaNValue()
 	}
 	value, err := strconv.ParseFloat(input, 64)
+	if errors.Is(err, strconv.ErrRange) {
+		// Well formed, but too large for a float64: value is already ±Inf.
+		err = nil
+	}
 	if err != nil {
 		for end := len(input); end > 0; end-- {
 			val := input[0:end]
@@ -152,7 +156,8 @@ func builtinGlobalParseFloat(call FunctionCall) Value {
 				return NaNValue()
 			}
 			value, err = strconv.ParseFloat(val, 64)
-			if err == nil {
+			if err == nil || errors.Is(err, strconv.ErrRange) {
+				err = nil
 				break
 			}
 		}
